@@ -910,7 +910,9 @@ spec fn cond_clash(b: IfBranch) -> bool {
 spec fn lit_clash(e: Expression) -> bool {
     match e {
         Expression::BinOp { a, b, op, .. } => lit_head(*a) is Some && lit_head(*b) is Some && !lit_op_ok(op, lit_head(*a)->Some_0, lit_head(*b)->Some_0),
-        Expression::UniOp { a, op, .. } => op is Not && lit_head(*a) is Some && lit_head(*a)->Some_0 != 7,
+        // `not` of a non-bool; unary `-` of anything but a number (C03: "`-` on a string")
+        Expression::UniOp { a, op, .. } => lit_head(*a) is Some && ((op is Not && lit_head(*a)->Some_0 != 7)
+            || (op is Neg && lit_head(*a)->Some_0 != 5 && lit_head(*a)->Some_0 != 6)),
         Expression::Call { function, .. } => lit_head(*function) is Some,
         Expression::BlobAccess { value, .. } => lit_head(*value) is Some,
         Expression::Index { value, .. } => lit_head(*value) is Some,
@@ -1008,6 +1010,39 @@ spec fn ids_below(xs: Seq<TyID>, n: int) -> bool { forall|k: int| 0 <= k < xs.le
 spec fn tys_valid(tys: Seq<(&Span, Option<TyID>, Option<TyID>)>, n: int) -> bool {
     forall|k: int| 0 <= k < tys.len() ==> ((#[trigger] tys[k]).1 is Some ==> (tys[k].1->Some_0.0 as int) < n) && (tys[k].2 is Some ==> (tys[k].2->Some_0.0 as int) < n)
 }
+/// the returns of the first `upto` branches of an `if` are all in the class of `ret` (the type the `if`
+/// hands to the enclosing function as "what the code in here returns")
+spec fn rets_joined(ts: Seq<TypeNode>, tys: Seq<(&Span, Option<TyID>, Option<TyID>)>, upto: int, ret: Option<TyID>) -> bool {
+    forall|k: int| 0 <= k < upto && k < tys.len() && (#[trigger] tys[k]).1 is Some
+        ==> ret is Some && rep0(ts, ret->Some_0.0 as int) == rep0(ts, tys[k].1->Some_0.0 as int)
+}
+/// one round of joining: `ret_n` is the result of unifying the i-th branch's return with `ret_b`
+proof fn lemma_rets_step(ts_b: Seq<TypeNode>, ts_1: Seq<TypeNode>, ts_n: Seq<TypeNode>, tys: Seq<(&Span, Option<TyID>, Option<TyID>)>, i: int,
+                         ret_b: Option<TyID>, ret_n: Option<TyID>)
+    requires merges_only(ts_b, ts_1), merges_only(ts_1, ts_n), rets_joined(ts_b, tys, i, ret_b), tys_valid(tys, ts_b.len() as int),
+        0 <= i < tys.len(), ret_b is Some ==> (ret_b->Some_0.0 as int) < ts_b.len(), ret_n is Some ==> (ret_n->Some_0.0 as int) < ts_1.len(),
+        ret_n is None <==> (tys[i].1 is None && ret_b is None),
+        tys[i].1 is Some ==> rep0(ts_1, ret_n->Some_0.0 as int) == rep0(ts_1, tys[i].1->Some_0.0 as int),
+        ret_b is Some ==> rep0(ts_1, ret_n->Some_0.0 as int) == rep0(ts_1, ret_b->Some_0.0 as int),
+    ensures rets_joined(ts_n, tys, i + 1, ret_n),
+{
+    lemma_merges_trans(ts_b, ts_1, ts_n);
+    assert forall|k: int| 0 <= k < i + 1 && k < tys.len() && (#[trigger] tys[k]).1 is Some
+        implies ret_n is Some && rep0(ts_n, ret_n->Some_0.0 as int) == rep0(ts_n, tys[k].1->Some_0.0 as int) by {
+        if k < i {
+            // joined with ret_b before, ret_b joined with ret_n now
+            assert(rep0(ts_b, ret_b->Some_0.0 as int) == rep0(ts_b, tys[k].1->Some_0.0 as int));
+            assert(rep0(ts_1, ret_b->Some_0.0 as int) == rep0(ts_1, tys[k].1->Some_0.0 as int));
+            assert(rep0(ts_1, ret_n->Some_0.0 as int) == rep0(ts_1, tys[k].1->Some_0.0 as int));
+        }
+        assert(rep0(ts_n, ret_n->Some_0.0 as int) == rep0(ts_n, tys[k].1->Some_0.0 as int));
+    }
+}
+/// later growth of the graph keeps the returns joined
+proof fn lemma_rets_mono(ts_a: Seq<TypeNode>, ts_b: Seq<TypeNode>, tys: Seq<(&Span, Option<TyID>, Option<TyID>)>, upto: int, ret: Option<TyID>)
+    requires merges_only(ts_a, ts_b), rets_joined(ts_a, tys, upto, ret), tys_valid(tys, ts_a.len() as int), ret is Some ==> (ret->Some_0.0 as int) < ts_a.len(),
+    ensures rets_joined(ts_b, tys, upto, ret),
+{}
 spec fn all_brk(ss: Seq<Statement>, l: bool) -> bool { forall|i: int| 0 <= i < ss.len() ==> s_brk(#[trigger] ss[i], l) }
 
 /// inside a pure function - at any depth, including nested closures, branches and loops - there is
@@ -2443,55 +2478,88 @@ impl TypeChecker {
                         forall|k: int| 0 <= k < it.index@ ==> !cond_clash(#[trigger] branches@[k]), //# C03 expression.loop2.no_literal_condition_so_far_is_a_non_bool
 //@   endloop
 //@   ghost before-loop 3
+                    let ghost n3r = self.types@.len();
+//@   endghost
+//@   loop 3 binder itr
+                    invariant
+                        self.inv2(), self.grows(old(self)), n == self.variables@.len(), vs == self.variables@, il == ctx.inside_loop, ip == ctx.inside_pure, self.types@.len() >= n3r, //# C04,C05 expression.loop3.aux1
+                        tys_valid(tys@, n3r as int), itr.seq().len() == tys@.len(), //# - expression.loop3.aux2
+                        forall|k: int| 0 <= k < tys@.len() ==> *(#[trigger] itr.seq()[k]) == tys@[k], //# - expression.loop3.aux3
+                        ret is Some ==> self.valid(ret->Some_0), //# C07 expression.loop3.aux4
+                        rets_joined(self.types@, tys@, itr.index@ as int, ret), //# C02,C03 expression.loop3.the_returns_of_the_branches_so_far_are_in_the_class_of_the_type_the_if_returns
+//@   endloop
+//@   ghost loop-body 3
+                        let ghost ts_rb = self.types@; let ghost ret_rb = ret;
+                        proof { lemma_merges_refl(ts_rb); }
+//@   endghost
+//@   ghost loop-end 3
+                        proof { lemma_merges_refl(self.types@); lemma_rets_step(ts_rb, self.types@, self.types@, tys@, itr.index@ as int, ret_rb, ret); } //# C02,C03 expression.loop3.the_return_of_this_branch_is_joined_with_the_returns_so_far
+//@   endghost
+//@   ghost after-loop 3
+                    let ghost ts_rl = self.types@;
+                    proof { lemma_merges_refl(ts_rl); }
+//@   endghost
+//@   ghost after
+//@| let void = self.push_type(Type::Void);
+                    proof { lemma_rets_mono(ts_rl, self.types@, tys@, tys@.len() as int, ret); }
+//@   endghost
+//@   ghost before-loop 4
                         let ghost n3 = self.types@.len();
 //@   endghost
-//@   loop 3 binder it
-                        invariant
-                            self.inv2(), self.grows(old(self)), n == self.variables@.len(), vs == self.variables@, il == ctx.inside_loop, ip == ctx.inside_pure, self.types@.len() >= n3, //# C04,C05 expression.loop3.aux1
-                            tys_valid(tys@, n3 as int), it.seq().len() == tys@.len(), //# - expression.loop3.aux2
-                            forall|k: int| 0 <= k < tys@.len() ==> *(#[trigger] it.seq()[k]) == tys@[k], //# - expression.loop3.aux3
-                            ret is Some ==> self.valid(ret->Some_0), value is Some ==> self.valid(value->Some_0), //# C07 expression.loop3.aux4
-//@   endloop
 //@   loop 4 binder it
-                    invariant
-                        self.inv2(), self.grows(old(self)), n == self.variables@.len(), vs == self.variables@, il == ctx.inside_loop, ip == ctx.inside_pure, self.valid(to_match), //# C04,C05 expression.loop4.aux1
-                        vstd::std_specs::btree::key_obeys_cmp_spec::<String>(), //# C07 expression.loop4.aux2
-                        it.seq().len() == branches@.len(), //# - expression.loop4.aux3
-                        forall|k: int| 0 <= k < branches@.len() ==> *(#[trigger] it.seq()[k]) == branches@[k], //# - expression.loop4.aux4
-                        forall|k: int| 0 <= k < branches@.len() ==> cb_ok(#[trigger] branches@[k], n), //# C07 expression.loop4.aux5
-                        ret is Some ==> self.valid(ret->Some_0), value is Some ==> self.valid(value->Some_0), //# C07 expression.loop4.aux6
-                        forall|k: int| 0 <= k < it.index@ ==> cb_str(vs, #[trigger] branches@[k], il, ip), //# C04,C05 expression.loop4.arms_checked
-                        cons_of(self.types@, to_match.0 as int).contains(Constraint::Enum), //# C05 expression.loop4.matched_value_must_be_an_enum
-                        forall|k: int| 0 <= k < it.index@ ==> cons_of(self.types@, to_match.0 as int).contains(variant_con(#[trigger] branches@[k], vs)), //# C05 expression.loop4.every_arm_so_far_requires_its_variant
-                        arm_names(branch_names@, branches@, it.index@ as int), //# C05 expression.loop4.names_collected_are_the_arms_so_far
+                        invariant
+                            self.inv2(), self.grows(old(self)), n == self.variables@.len(), vs == self.variables@, il == ctx.inside_loop, ip == ctx.inside_pure, self.types@.len() >= n3, //# C04,C05 expression.loop4.aux1
+                            tys_valid(tys@, n3 as int), it.seq().len() == tys@.len(), //# - expression.loop4.aux2
+                            forall|k: int| 0 <= k < tys@.len() ==> *(#[trigger] it.seq()[k]) == tys@[k], //# - expression.loop4.aux3
+                            ret is Some ==> self.valid(ret->Some_0), value is Some ==> self.valid(value->Some_0), //# C07 expression.loop4.aux4
+                            rets_joined(self.types@, tys@, it.index@ as int, ret), //# C02,C03 expression.loop4.the_returns_of_the_branches_so_far_are_in_the_class_of_the_type_the_if_returns
 //@   endloop
 //@   ghost loop-body 4
-                proof { if branch.variable is Some { lemma_var_valid(self, branch.variable->Some_0 as int); } }
-                let ghost sb = self.types@; proof { lemma_cons_refl(sb); }
+                        let ghost ts_b = self.types@; let ghost ret_b = ret;
+                        proof { lemma_merges_refl(ts_b); }
 //@   endghost
-//@   ghost after-loop 4
-                let ghost sl = self.types@; proof { lemma_cons_refl(sl); }
+//@   ghost before
+//@| value = self
+                        let ghost ts_1 = self.types@;
+                        proof { lemma_merges_refl(ts_1); }
 //@   endghost
-//@   ghost before-loop 5
-                let ghost n5 = self.types@.len(); let ghost t5 = self.types@; proof { lemma_heads_refl(t5); }
-                #[verifier::loop_isolation(false)]
+//@   ghost loop-end 4
+                        proof { lemma_rets_step(ts_b, ts_1, self.types@, tys@, it.index@ as int, ret_b, ret); } //# C02,C03 expression.loop4.the_return_of_this_branch_is_joined_with_the_returns_so_far
 //@   endghost
 //@   loop 5 binder it
                     invariant
-                        self.inv2(), self.grows(old(self)), n == self.variables@.len(), vs == self.variables@, il == ctx.inside_loop, ip == ctx.inside_pure, self.valid(blob_ty), self.types@.len() >= n5, //# C04,C05 expression.loop5.aux1
+                        self.inv2(), self.grows(old(self)), n == self.variables@.len(), vs == self.variables@, il == ctx.inside_loop, ip == ctx.inside_pure, self.valid(to_match), //# C04,C05 expression.loop5.aux1
                         vstd::std_specs::btree::key_obeys_cmp_spec::<String>(), //# C07 expression.loop5.aux2
-                        it.seq().len() == fields@.len(), //# - expression.loop5.aux3
-                        forall|k: int| 0 <= k < fields@.len() ==> *(#[trigger] it.seq()[k]) == fields@[k], //# - expression.loop5.aux4
-                        fields_in_range(given_fields, self.types@.len() as int), //# C07 expression.loop5.aux5
-                        forall|k: int| 0 <= k < it.index@ ==> given_fields@.dom().contains((#[trigger] fields@[k]).0), //# C07 expression.loop5.every_given_field_gets_a_type
-                        forall|name: String| #[trigger] given_fields@.dom().contains(name) ==> given_name(fields@, name), //# C05 expression.loop5.only_given_fields_get_a_type
-                        heads_kept(t5, self.types@), //# C05 expression.loop5.aux6
+                        it.seq().len() == branches@.len(), //# - expression.loop5.aux3
+                        forall|k: int| 0 <= k < branches@.len() ==> *(#[trigger] it.seq()[k]) == branches@[k], //# - expression.loop5.aux4
+                        forall|k: int| 0 <= k < branches@.len() ==> cb_ok(#[trigger] branches@[k], n), //# C07 expression.loop5.aux5
+                        ret is Some ==> self.valid(ret->Some_0), value is Some ==> self.valid(value->Some_0), //# C07 expression.loop5.aux6
+                        forall|k: int| 0 <= k < it.index@ ==> cb_str(vs, #[trigger] branches@[k], il, ip), //# C04,C05 expression.loop5.arms_checked
+                        cons_of(self.types@, to_match.0 as int).contains(Constraint::Enum), //# C05 expression.loop5.matched_value_must_be_an_enum
+                        forall|k: int| 0 <= k < it.index@ ==> cons_of(self.types@, to_match.0 as int).contains(variant_con(#[trigger] branches@[k], vs)), //# C05 expression.loop5.every_arm_so_far_requires_its_variant
+                        arm_names(branch_names@, branches@, it.index@ as int), //# C05 expression.loop5.names_collected_are_the_arms_so_far
 //@   endloop
+//@   ghost loop-body 5
+                proof { if branch.variable is Some { lemma_var_valid(self, branch.variable->Some_0 as int); } }
+                let ghost sb = self.types@; proof { lemma_cons_refl(sb); }
+//@   endghost
+//@   ghost after-loop 5
+                let ghost sl = self.types@; proof { lemma_cons_refl(sl); }
+//@   endghost
 //@   ghost before-loop 6
+                let ghost n5 = self.types@.len(); let ghost t5 = self.types@; proof { lemma_heads_refl(t5); }
                 #[verifier::loop_isolation(false)]
 //@   endghost
-//@   loop 6
-                    invariant vstd::std_specs::btree::key_obeys_cmp_spec::<String>(), //# C07 expression.loop6.aux1
+//@   loop 6 binder it
+                    invariant
+                        self.inv2(), self.grows(old(self)), n == self.variables@.len(), vs == self.variables@, il == ctx.inside_loop, ip == ctx.inside_pure, self.valid(blob_ty), self.types@.len() >= n5, //# C04,C05 expression.loop6.aux1
+                        vstd::std_specs::btree::key_obeys_cmp_spec::<String>(), //# C07 expression.loop6.aux2
+                        it.seq().len() == fields@.len(), //# - expression.loop6.aux3
+                        forall|k: int| 0 <= k < fields@.len() ==> *(#[trigger] it.seq()[k]) == fields@[k], //# - expression.loop6.aux4
+                        fields_in_range(given_fields, self.types@.len() as int), //# C07 expression.loop6.aux5
+                        forall|k: int| 0 <= k < it.index@ ==> given_fields@.dom().contains((#[trigger] fields@[k]).0), //# C07 expression.loop6.every_given_field_gets_a_type
+                        forall|name: String| #[trigger] given_fields@.dom().contains(name) ==> given_name(fields@, name), //# C05 expression.loop6.only_given_fields_get_a_type
+                        heads_kept(t5, self.types@), //# C05 expression.loop6.aux6
 //@   endloop
 //@   ghost before-loop 7
                 #[verifier::loop_isolation(false)]
@@ -2500,39 +2568,45 @@ impl TypeChecker {
                     invariant vstd::std_specs::btree::key_obeys_cmp_spec::<String>(), //# C07 expression.loop7.aux1
 //@   endloop
 //@   ghost before-loop 8
+                #[verifier::loop_isolation(false)]
+//@   endghost
+//@   loop 8
+                    invariant vstd::std_specs::btree::key_obeys_cmp_spec::<String>(), //# C07 expression.loop8.aux1
+//@   endloop
+//@   ghost before-loop 9
                 let ghost n8 = self.types@.len(); let ghost t8 = self.types@; proof { lemma_heads_refl(t8); }
                 #[verifier::loop_isolation(false)]
 //@   endghost
-//@   loop 8 binder it
-                    invariant
-                        self.inv2(), self.grows(old(self)), n == self.variables@.len(), vs == self.variables@, il == ctx.inside_loop, ip == ctx.inside_pure, self.types@.len() >= n8, //# C04,C05 expression.loop8.aux1
-                        vstd::std_specs::btree::key_obeys_cmp_spec::<String>(), //# C07 expression.loop8.aux2
-                        self.valid(given_blob), self.valid(blob_ty), ret is Some ==> self.valid(ret->Some_0), //# C07 expression.loop8.aux3
-                        it.seq().len() == fields@.len(), //# - expression.loop8.aux4
-                        forall|k: int| 0 <= k < fields@.len() ==> *(#[trigger] it.seq()[k]) == fields@[k], //# - expression.loop8.aux5
-                        forall|k: int| 0 <= k < fields@.len() ==> e_ok((#[trigger] fields@[k]).1, n), //# C07 expression.loop8.aux6
-                        fields_in_range(fields_and_types, n8 as int), //# C07 expression.loop8.aux7
-                        forall|k: int| 0 <= k < fields@.len() ==> fields_and_types@.dom().contains((#[trigger] fields@[k]).0), //# C07 expression.loop8.aux8
-                        forall|k: int| 0 <= k < it.index@ ==> e_both(vs, (#[trigger] fields@[k]).1, il, ip), //# C04,C05 expression.loop8.fields_checked
-                        heads_kept(t8, self.types@), //# C05 expression.loop8.aux9
-//@   endloop
 //@   loop 9 binder it
                     invariant
-                        self.inv2(), self.grows(old(self)), n == self.variables@.len(), vs == self.variables@, il == ctx.inside_loop, ip == ctx.inside_pure, ret is Some ==> self.valid(ret->Some_0), //# C04,C05 expression.loop9.aux1
-                        it.seq().len() == values@.len(), //# - expression.loop9.aux2
-                        forall|k: int| 0 <= k < values@.len() ==> *(#[trigger] it.seq()[k]) == values@[k], //# - expression.loop9.aux3
-                        forall|k: int| 0 <= k < values@.len() ==> e_ok(#[trigger] values@[k], n), //# C07 expression.loop9.aux4
-                        forall|k: int| 0 <= k < tys@.len() ==> self.valid(#[trigger] tys@[k]), //# C07 expression.loop9.aux5
-                        forall|k: int| 0 <= k < it.index@ ==> e_both(vs, #[trigger] values@[k], il, ip), //# C04,C05 expression.loop9.members_checked
+                        self.inv2(), self.grows(old(self)), n == self.variables@.len(), vs == self.variables@, il == ctx.inside_loop, ip == ctx.inside_pure, self.types@.len() >= n8, //# C04,C05 expression.loop9.aux1
+                        vstd::std_specs::btree::key_obeys_cmp_spec::<String>(), //# C07 expression.loop9.aux2
+                        self.valid(given_blob), self.valid(blob_ty), ret is Some ==> self.valid(ret->Some_0), //# C07 expression.loop9.aux3
+                        it.seq().len() == fields@.len(), //# - expression.loop9.aux4
+                        forall|k: int| 0 <= k < fields@.len() ==> *(#[trigger] it.seq()[k]) == fields@[k], //# - expression.loop9.aux5
+                        forall|k: int| 0 <= k < fields@.len() ==> e_ok((#[trigger] fields@[k]).1, n), //# C07 expression.loop9.aux6
+                        fields_in_range(fields_and_types, n8 as int), //# C07 expression.loop9.aux7
+                        forall|k: int| 0 <= k < fields@.len() ==> fields_and_types@.dom().contains((#[trigger] fields@[k]).0), //# C07 expression.loop9.aux8
+                        forall|k: int| 0 <= k < it.index@ ==> e_both(vs, (#[trigger] fields@[k]).1, il, ip), //# C04,C05 expression.loop9.fields_checked
+                        heads_kept(t8, self.types@), //# C05 expression.loop9.aux9
 //@   endloop
 //@   loop 10 binder it
                     invariant
-                        self.inv2(), self.grows(old(self)), n == self.variables@.len(), vs == self.variables@, il == ctx.inside_loop, ip == ctx.inside_pure, ret is Some ==> self.valid(ret->Some_0), self.valid(inner_ty), //# C04,C05 expression.loop10.aux1
+                        self.inv2(), self.grows(old(self)), n == self.variables@.len(), vs == self.variables@, il == ctx.inside_loop, ip == ctx.inside_pure, ret is Some ==> self.valid(ret->Some_0), //# C04,C05 expression.loop10.aux1
                         it.seq().len() == values@.len(), //# - expression.loop10.aux2
                         forall|k: int| 0 <= k < values@.len() ==> *(#[trigger] it.seq()[k]) == values@[k], //# - expression.loop10.aux3
                         forall|k: int| 0 <= k < values@.len() ==> e_ok(#[trigger] values@[k], n), //# C07 expression.loop10.aux4
-                        forall|k: int| 0 <= k < it.index@ ==> e_both(vs, #[trigger] values@[k], il, ip), //# C04,C05 expression.loop10.elements_checked
-                        forall|k: int| 0 <= k < it.index@ && lit_head(#[trigger] values@[k]) is Some ==> head(ty_of(self.types@, inner_ty)) == lit_head(values@[k])->Some_0, //# C03 expression.loop10.the_element_type_is_the_type_of_every_literal_so_far
+                        forall|k: int| 0 <= k < tys@.len() ==> self.valid(#[trigger] tys@[k]), //# C07 expression.loop10.aux5
+                        forall|k: int| 0 <= k < it.index@ ==> e_both(vs, #[trigger] values@[k], il, ip), //# C04,C05 expression.loop10.members_checked
+//@   endloop
+//@   loop 11 binder it
+                    invariant
+                        self.inv2(), self.grows(old(self)), n == self.variables@.len(), vs == self.variables@, il == ctx.inside_loop, ip == ctx.inside_pure, ret is Some ==> self.valid(ret->Some_0), self.valid(inner_ty), //# C04,C05 expression.loop11.aux1
+                        it.seq().len() == values@.len(), //# - expression.loop11.aux2
+                        forall|k: int| 0 <= k < values@.len() ==> *(#[trigger] it.seq()[k]) == values@[k], //# - expression.loop11.aux3
+                        forall|k: int| 0 <= k < values@.len() ==> e_ok(#[trigger] values@[k], n), //# C07 expression.loop11.aux4
+                        forall|k: int| 0 <= k < it.index@ ==> e_both(vs, #[trigger] values@[k], il, ip), //# C04,C05 expression.loop11.elements_checked
+                        forall|k: int| 0 <= k < it.index@ && lit_head(#[trigger] values@[k]) is Some ==> head(ty_of(self.types@, inner_ty)) == lit_head(values@[k])->Some_0, //# C03 expression.loop11.the_element_type_is_the_type_of_every_literal_so_far
 //@   endloop
 //@   ghost before
 //@| let mut ret = ret;
@@ -2543,6 +2617,11 @@ impl TypeChecker {
 //@| let (actual_ret, implicit_ret) = self.expression_block(*span, body, ctx)?;
                 let ghost blk_ret = actual_ret;
                 let ghost blk_val = implicit_ret;
+//@   endghost
+//@   ghost before 1
+//@| with_ret(
+                // what the code inside an `if` returns is what the `if` hands on: with or without an `else`
+                assert(rets_joined(self.types@, tys@, tys@.len() as int, ret)); //# C02,C03 expression.every_return_inside_an_if_is_in_the_class_of_the_type_the_if_returns
 //@   endghost
 //@   ghost before 1
 //@| self.unify_option(*span, ctx, Some(ret_ty), actual_ret)
